@@ -29,9 +29,9 @@ def norm(line):
     line = re.sub(r'[./\w-]*/(zz_verif_\w+\.go)', r'\1', line)
     line = re.sub(r'0x[0-9a-f]+', '0xADDR', line)
     # random logger names (6 characters): the engine's stub hands out fresh names rnd001.., the host random ones
-    line = re.sub(r'(\\"logger\\":\\")[A-Za-z0-9]{6}(\\")', r'\1RNDNAM\2', line)
-    line = re.sub(r'(logger=\\")[A-Za-z0-9]{6}(\\")', r'\1RNDNAM\2', line)
-    line = re.sub(r'(\\x1b\[37m)[A-Za-z0-9]{6}(\\x1b\[0m)', r'\1RNDNAM\2', line)
+    line = re.sub(r'(\\"logger\\":\\")[^\\"]{6}(\\")', r'\1RNDNAM\2', line)
+    line = re.sub(r'(logger=\\")[^\\"]{6}(\\")', r'\1RNDNAM\2', line)
+    line = re.sub(r'(\\x1b\[37m)[^\\ ]{6}(\\x1b\[0m)', r'\1RNDNAM\2', line)
     return line
 
 def main():
